@@ -35,7 +35,10 @@ type lexWriter struct {
 	appends   []*ast.CallExpr // all `row = append(row, ...)` in source order
 	transCall *ast.CallExpr   // the arity-3 append inside the transitions loop
 	transLoop *ast.RangeStmt
-	header    []*ast.CallExpr // appends before the transitions loop
+	header    []ast.Expr // the words put into the row before the transitions loop
+	headerPos token.Pos
+	armFn     ast.Node // where the switch lives (== fn, or a helper returning (code, param))
+	actNode   ast.Node // the node inside fn that emits the action pair (the switch or the shared append)
 }
 
 // enclosingFuncNode returns the innermost FuncLit/FuncDecl containing n within root.
@@ -123,7 +126,75 @@ func findLexerWriter(c *Ctx) *lexWriter {
 	if w == nil || w.fn == nil {
 		return nil
 	}
+	w.armFn = w.fn
+	w.actNode = w.sw
 	w.rowObj, w.appends = rowAppends(info, w.fn)
+	armHasAppend := false
+	for _, app := range w.appends {
+		if containsNode(w.sw, app) {
+			armHasAppend = true
+		}
+	}
+	// helper form: the switch lives in a function whose arms `return code, param`, and the single
+	// call site appends both results to the row
+	var helperAppend *ast.CallExpr
+	var resultOrder []int // append word k (0-based after the row) is helper result resultOrder[k]
+	if !armHasAppend {
+		if hd, isDecl := w.fn.(*ast.FuncDecl); isDecl {
+			hfn, _ := info.Defs[hd.Name].(*types.Func)
+			var sites []*ast.CallExpr
+			for _, f := range pk.Syntax {
+				if isTestFile(p.Fset, f) {
+					continue
+				}
+				ast.Inspect(f, func(n ast.Node) bool {
+					if call, ok := n.(*ast.CallExpr); ok && hfn != nil && calleeFunc(info, call) == hfn {
+						sites = append(sites, call)
+					}
+					return true
+				})
+			}
+			if len(sites) == 1 {
+				var file *ast.File
+				for _, f := range pk.Syntax {
+					if f.Pos() <= sites[0].Pos() && sites[0].End() <= f.End() {
+						file = f
+					}
+				}
+				outer := enclosingFuncNode(file, sites[0])
+				var resObjs []types.Object
+				ast.Inspect(outer, func(n ast.Node) bool {
+					if as, ok := n.(*ast.AssignStmt); ok && len(as.Rhs) == 1 && ast.Unparen(as.Rhs[0]) == ast.Expr(sites[0]) {
+						for _, l := range as.Lhs {
+							resObjs = append(resObjs, usesObj(info, l))
+						}
+					}
+					return true
+				})
+				w.fn = outer
+				w.rowObj, w.appends = rowAppends(info, outer)
+				for _, app := range w.appends {
+					var order []int
+					for _, a := range app.Args[1:] {
+						o := usesObj(info, stripConv(info, a))
+						for ri, ro := range resObjs {
+							if o != nil && o == ro {
+								order = append(order, ri)
+							}
+						}
+					}
+					if len(order) == len(app.Args)-1 && len(order) == len(resObjs) && len(order) > 0 {
+						helperAppend, resultOrder = app, order
+					}
+				}
+				// direct form: row = append(row, helper(action)...) is not valid Go for two results
+			}
+		}
+		if helperAppend == nil {
+			return nil
+		}
+		w.actNode = helperAppend
+	}
 	for _, cl := range w.sw.Body.List {
 		cc := cl.(*ast.CaseClause)
 		for _, lbl := range cc.List {
@@ -133,11 +204,30 @@ func findLexerWriter(c *Ctx) *lexWriter {
 			}
 			arm := &writerArm{constName: k.Name()}
 			arm.constVal, _ = constant.Int64Val(k.Val())
-			for _, app := range w.appends {
-				if containsNode(cc, app) {
-					arm.call = app
-					if len(app.Args) == 3 {
-						arm.code, arm.param = app.Args[1], app.Args[2]
+			if helperAppend == nil {
+				for _, app := range w.appends {
+					if containsNode(cc, app) {
+						arm.call = app
+						if len(app.Args) == 3 {
+							arm.code, arm.param = app.Args[1], app.Args[2]
+						}
+					}
+				}
+			} else {
+				// the arm's return statement (exactly one, at its end)
+				var rets []*ast.ReturnStmt
+				for _, st := range cc.Body {
+					inspectNoLit(st, func(n ast.Node) bool {
+						if rs, ok := n.(*ast.ReturnStmt); ok {
+							rets = append(rets, rs)
+						}
+						return true
+					})
+				}
+				if len(rets) == 1 && len(rets[0].Results) == len(resultOrder) {
+					arm.call = helperAppend
+					if len(resultOrder) == 2 {
+						arm.code, arm.param = rets[0].Results[resultOrder[0]], rets[0].Results[resultOrder[1]]
 					}
 				}
 			}
@@ -150,7 +240,7 @@ func findLexerWriter(c *Ctx) *lexWriter {
 		if !ok {
 			return true
 		}
-		if containsNode(rs, w.sw) {
+		if containsNode(rs, w.actNode) {
 			return true
 		}
 		for _, app := range w.appends {
@@ -161,9 +251,34 @@ func findLexerWriter(c *Ctx) *lexWriter {
 		return true
 	})
 	if w.transLoop != nil {
+		// the row's initial value counts as header words
+		inspectNoLit(w.fn, func(n ast.Node) bool {
+			switch x := n.(type) {
+			case *ast.AssignStmt:
+				if x.Tok == token.DEFINE && len(x.Lhs) == 1 && len(x.Rhs) == 1 && usesObj(info, x.Lhs[0]) == w.rowObj && x.End() <= w.transLoop.Pos() {
+					if cl, ok := ast.Unparen(x.Rhs[0]).(*ast.CompositeLit); ok {
+						w.header = append(w.header, cl.Elts...)
+						w.headerPos = cl.Pos()
+					}
+				}
+			case *ast.ValueSpec:
+				for i, nm := range x.Names {
+					if info.Defs[nm] == w.rowObj && i < len(x.Values) {
+						if cl, ok := ast.Unparen(x.Values[i]).(*ast.CompositeLit); ok {
+							w.header = append(w.header, cl.Elts...)
+							w.headerPos = cl.Pos()
+						}
+					}
+				}
+			}
+			return true
+		})
 		for _, app := range w.appends {
-			if app.End() <= w.transLoop.Pos() && !containsNode(w.sw, app) {
-				w.header = append(w.header, app)
+			if app.End() <= w.transLoop.Pos() && !containsNode(w.actNode, app) {
+				w.header = append(w.header, app.Args[1:]...)
+				if w.headerPos == token.NoPos {
+					w.headerPos = app.Pos()
+				}
 			}
 		}
 	}
@@ -286,13 +401,29 @@ func findParserWriter(c *Ctx) *parserWriter {
 	}
 	if fl := w.closures["_actions"]; fl != nil {
 		_, apps := rowAppends(info, fl)
-		ast.Inspect(fl, func(n ast.Node) bool {
-			if sw, ok := n.(*ast.SwitchStmt); ok && sw.Tag != nil && isField(info, sw.Tag, "parsergen/lr1", "Action", "Type") {
-				w.actionsSw = sw
-			}
-			return true
-		})
-		if w.actionsSw != nil {
+		// the switch over the action type: in the closure itself, or in a helper it calls whose
+		// arms return the encoded value
+		var helperCall *ast.CallExpr
+		for _, sc := range funcScope(c.Prog, w.pk, fl, 2) {
+			ast.Inspect(sc.node, func(n ast.Node) bool {
+				if sw, ok := n.(*ast.SwitchStmt); ok && sw.Tag != nil && isField(info, sw.Tag, "parsergen/lr1", "Action", "Type") && w.actionsSw == nil {
+					w.actionsSw = sw
+					if sc.node != ast.Node(fl) {
+						if hd, ok := sc.node.(*ast.FuncDecl); ok {
+							hfn := info.Defs[hd.Name]
+							ast.Inspect(fl, func(m ast.Node) bool {
+								if call, ok := m.(*ast.CallExpr); ok && calleeFunc(info, call) != nil && types.Object(calleeFunc(info, call)) == hfn {
+									helperCall = call
+								}
+								return true
+							})
+						}
+					}
+				}
+				return true
+			})
+		}
+		if w.actionsSw != nil && helperCall == nil {
 			for _, app := range apps {
 				if app.End() <= w.actionsSw.Pos() && len(app.Args) == 2 {
 					w.actionsKey = app.Args[1]
@@ -306,6 +437,44 @@ func findParserWriter(c *Ctx) *parserWriter {
 							if containsNode(cc, app) && len(app.Args) == 2 {
 								w.actionArms[k.Name()] = app.Args[1]
 							}
+						}
+					}
+				}
+			}
+		}
+		if w.actionsSw != nil && helperCall != nil {
+			// row = append(row, key, helper(action)) (or two appends: key, then the helper's value)
+			for _, app := range apps {
+				for i, a := range app.Args[1:] {
+					if ast.Unparen(stripConv(info, a)) == ast.Expr(helperCall) {
+						if i == 1 && len(app.Args) == 3 {
+							w.actionsKey = app.Args[1]
+						}
+						if i == 0 && len(app.Args) == 2 {
+							for _, prev := range apps {
+								if prev.End() <= app.Pos() && len(prev.Args) == 2 {
+									w.actionsKey = prev.Args[1]
+								}
+							}
+						}
+					}
+				}
+			}
+			for _, cl := range w.actionsSw.Body.List {
+				cc := cl.(*ast.CaseClause)
+				for _, lbl := range cc.List {
+					if k, ok := usesObj(info, lbl).(*types.Const); ok {
+						var rets []*ast.ReturnStmt
+						for _, st := range cc.Body {
+							inspectNoLit(st, func(n ast.Node) bool {
+								if rs, ok := n.(*ast.ReturnStmt); ok {
+									rets = append(rets, rs)
+								}
+								return true
+							})
+						}
+						if len(rets) == 1 && len(rets[0].Results) == 1 {
+							w.actionArms[k.Name()] = rets[0].Results[0]
 						}
 					}
 				}
@@ -424,17 +593,10 @@ func ruleFMT1(c *Ctx) {
 	}
 	info := w.pk.TypesInfo
 	// writer: header words
-	headerWords := 0
-	for _, h := range w.header {
-		headerWords += len(h.Args) - 1
-	}
+	headerWords := len(w.header)
 	var flagsExpr, countExpr ast.Expr
 	if headerWords == 2 {
-		var hs []ast.Expr
-		for _, h := range w.header {
-			hs = append(hs, h.Args[1:]...)
-		}
-		flagsExpr, countExpr = hs[0], hs[1]
+		flagsExpr, countExpr = w.header[0], w.header[1]
 	}
 	// count word must be len(<ranged inputs>)
 	countOK := false
@@ -496,7 +658,7 @@ func ruleFMT1(c *Ctx) {
 		}
 	}
 	// order: header, transitions, actions
-	c.check(w.transLoop.End() <= w.sw.Pos(), rule, "codegen.EmitLexer/section-order", p.Pos(w.sw.Pos()),
+	c.check(w.transLoop.End() <= w.actNode.Pos(), rule, "codegen.EmitLexer/section-order", p.Pos(w.actNode.Pos()),
 		"transitions are appended before actions", "actions are appended before the transitions: the reader skips gotoN*3 words to find the actions")
 
 	// reader
@@ -565,7 +727,9 @@ func ruleFMT1(c *Ctx) {
 	}
 	headerSkip := int64(-1)
 	stride1, stride2 := int64(-1), int64(-1)
-	var searchK, stride2Var string
+	var stride2Var string
+	// where the action section starts: `cursor += count*K` before the action loop, or the action
+	// loop's own index defined as `cursor + count*K`
 	ast.Inspect(r.fd.Body, func(n ast.Node) bool {
 		as, ok := n.(*ast.AssignStmt)
 		if !ok || len(as.Lhs) != 1 || len(as.Rhs) != 1 {
@@ -575,22 +739,123 @@ func ruleFMT1(c *Ctx) {
 		if as.Tok == token.ADD_ASSIGN && lhs == cursor {
 			if k, ok := intLit(tinfo, as.Rhs[0]); ok && (r.loop == nil || as.Pos() < r.loop.Pos()) && headerSkip == -1 {
 				headerSkip = k
+				return true
 			}
-			if be, ok := ast.Unparen(as.Rhs[0]).(*ast.BinaryExpr); ok && be.Op == token.MUL {
-				if k, ok := intLit(tinfo, be.Y); ok {
-					stride2, stride2Var = k, exprString(ast.Unparen(be.X))
-				} else if k, ok := intLit(tinfo, be.X); ok {
-					stride2, stride2Var = k, exprString(ast.Unparen(be.Y))
+			terms, k := linearForm(tinfo, nil, as.Rhs[0])
+			if k == 0 && len(terms) == 1 {
+				for a, co := range terms {
+					stride2, stride2Var = co, a
 				}
 			}
 		}
-		if as.Tok == token.DEFINE {
-			if be, ok := ast.Unparen(as.Rhs[0]).(*ast.BinaryExpr); ok && be.Op == token.ADD && exprString(ast.Unparen(be.X)) == cursor {
-				if mul, ok := ast.Unparen(be.Y).(*ast.BinaryExpr); ok && mul.Op == token.MUL {
-					if k, ok := intLit(tinfo, mul.Y); ok {
-						stride1, searchK = k, lhs
-					} else if k, ok := intLit(tinfo, mul.X); ok {
-						stride1, searchK = k, lhs
+		if as.Tok == token.DEFINE && lhs == r.idxVar {
+			terms, k := linearForm(tinfo, nil, as.Rhs[0])
+			if k == 0 && len(terms) == 2 && terms[cursor] == 1 {
+				for a, co := range terms {
+					if a != cursor {
+						stride2, stride2Var = co, a
+					}
+				}
+			}
+		}
+		return true
+	})
+	// the transition words read by the search: T[cursor + j*K + off], T being the table or a
+	// sub-slice of it starting at the cursor; K is the search stride, off the word's position
+	type searchRead struct {
+		off, stride int64
+	}
+	readOf := func(e ast.Expr) (searchRead, bool) {
+		ix, ok := stripConv(tinfo, resolveVia(tinfo, defs, e)).(*ast.IndexExpr)
+		if !ok {
+			return searchRead{}, false
+		}
+		var low ast.Expr
+		if usesObj(tinfo, ix.X) != r.modeVar {
+			sl, isSl := ast.Unparen(resolveVia(tinfo, defs, ix.X)).(*ast.SliceExpr)
+			if !isSl || usesObj(tinfo, sl.X) != r.modeVar {
+				return searchRead{}, false
+			}
+			low = sl.Low
+		}
+		terms, k := linearForm(tinfo, defs, ix.Index)
+		if low != nil {
+			t2, k2 := linearForm(tinfo, defs, low)
+			for a, co := range t2 {
+				terms[a] += co
+			}
+			k += k2
+		}
+		if len(terms) < 2 || terms[cursor] != 1 {
+			return searchRead{}, false
+		}
+		// everything besides the cursor is the probe index scaled by the stride
+		stride := int64(0)
+		for a, co := range terms {
+			if a == cursor {
+				continue
+			}
+			if stride != 0 && co != stride {
+				return searchRead{}, false
+			}
+			stride = co
+		}
+		return searchRead{k, stride}, true
+	}
+	runeParam := paramObj(tinfo, r.fd, 0)
+	roles := map[int64]string{}
+	nReads := 0
+	addRole := func(rd searchRead, role string) {
+		nReads++
+		if stride1 == -1 {
+			stride1 = rd.stride
+		} else if stride1 != rd.stride {
+			stride1 = -2 // inconsistent
+		}
+		if prev, ok := roles[rd.off]; ok && prev != role {
+			role = prev + "|" + role
+		}
+		roles[rd.off] = role
+	}
+	ast.Inspect(r.fd.Body, func(n ast.Node) bool {
+		switch x := n.(type) {
+		case *ast.BinaryExpr:
+			var other ast.Expr
+			op := x.Op
+			if usesObj(tinfo, ast.Unparen(x.X)) == runeParam {
+				other = x.Y
+			} else if usesObj(tinfo, ast.Unparen(x.Y)) == runeParam {
+				other = x.X
+				switch op { // normalise to r OP other
+				case token.LSS:
+					op = token.GTR
+				case token.GTR:
+					op = token.LSS
+				case token.LEQ:
+					op = token.GEQ
+				case token.GEQ:
+					op = token.LEQ
+				}
+			} else {
+				return true
+			}
+			rd, ok := readOf(other)
+			if !ok {
+				return true
+			}
+			switch op {
+			case token.GEQ, token.LSS: // r >= X, r < X : X is the lower bound
+				addRole(rd, "lower")
+			case token.LEQ, token.GTR: // r <= X, r > X : X is the upper bound
+				addRole(rd, "upper")
+			}
+		case *ast.AssignStmt:
+			for k, rhs := range x.Rhs {
+				if k < len(x.Lhs) && len(x.Lhs) == len(x.Rhs) {
+					if fv, _ := selField(tinfo, x.Lhs[k]); fv != nil {
+						if rd, ok := readOf(rhs); ok {
+							addRole(rd, "store:"+fv.Name())
+						}
 					}
 				}
 			}
@@ -604,76 +869,13 @@ func ruleFMT1(c *Ctx) {
 	c.check(stride1 == transArity && stride2 == transArity && stride2Var == cntVar, rule, "template/PushRune/transition-stride", ti.Pos(r.fd.Pos()),
 		fmt.Sprintf("binary search steps by %d words and the action section starts %s*%d words later: equal to the %d words written per transition", stride1, stride2Var, stride2, transArity),
 		fmt.Sprintf("strides: search %d, skip %s*%d; writer emits %d words per transition and the count is %q", stride1, stride2Var, stride2, transArity, cntVar))
-	// roles of offsets inside the search: follow reads through locals into comparisons with the rune
-	if searchK != "" {
-		runeParam := paramObj(tinfo, r.fd, 0)
-		roles := map[int64]string{}
-		offOf := func(e ast.Expr) (int64, bool) {
-			e = resolveVia(tinfo, defs, e)
-			ix, ok := e.(*ast.IndexExpr)
-			if !ok || usesObj(tinfo, ix.X) != r.modeVar {
-				return 0, false
-			}
-			b, off, ok := addConst(tinfo, stripConv(tinfo, ix.Index))
-			return off, ok && b == searchK
-		}
-		addRole := func(off int64, role string) {
-			if prev, ok := roles[off]; ok && prev != role {
-				role = prev + "|" + role
-			}
-			roles[off] = role
-		}
-		ast.Inspect(r.fd.Body, func(n ast.Node) bool {
-			switch x := n.(type) {
-			case *ast.BinaryExpr:
-				var other ast.Expr
-				op := x.Op
-				if usesObj(tinfo, ast.Unparen(x.X)) == runeParam {
-					other = x.Y
-				} else if usesObj(tinfo, ast.Unparen(x.Y)) == runeParam {
-					other = x.X
-					switch op { // normalise to r OP other
-					case token.LSS:
-						op = token.GTR
-					case token.GTR:
-						op = token.LSS
-					case token.LEQ:
-						op = token.GEQ
-					case token.GEQ:
-						op = token.LEQ
-					}
-				} else {
-					return true
-				}
-				off, ok := offOf(other)
-				if !ok {
-					return true
-				}
-				switch op {
-				case token.GEQ, token.LSS: // r >= X, r < X : X is the lower bound
-					addRole(off, "lower")
-				case token.LEQ, token.GTR: // r <= X, r > X : X is the upper bound
-					addRole(off, "upper")
-				}
-			case *ast.AssignStmt:
-				for k, rhs := range x.Rhs {
-					if k < len(x.Lhs) {
-						if fv, _ := selField(tinfo, x.Lhs[k]); fv != nil {
-							if off, ok := offOf(rhs); ok {
-								addRole(off, "store:"+fv.Name())
-							}
-						}
-					}
-				}
-			}
-			return true
-		})
+	if nReads > 0 {
 		okRoles := roles[0] == "lower" && roles[1] == "upper" && strings.HasPrefix(roles[2], "store:state")
 		c.check(okRoles, rule, "template/PushRune/transition-roles", ti.Pos(r.fd.Pos()),
 			"word +0 is compared as the lower bound, +1 as the upper bound, +2 is stored as the next state",
 			fmt.Sprintf("roles of the transition words in the reader are %v; the writer emits (lower, upper, next)", roles))
 	} else {
-		c.bad(rule, "template/PushRune/transition-roles", ti.Pos(r.fd.Pos()), "no `k := i + j*stride` cursor in the transition search")
+		c.bad(rule, "template/PushRune/transition-roles", ti.Pos(r.fd.Pos()), "no read of the form T[cursor + j*stride + k] in the transition search")
 	}
 	// action loop
 	actStride := int64(-1)
@@ -861,6 +1063,22 @@ func ruleFMT3(c *Ctx) {
 						effs = append(effs, strings.ToLower(sel.Sel.Name))
 					}
 				}
+			case *ast.AssignStmt:
+				// the stack operations spelled on the slice itself
+				if len(x.Lhs) == 1 && len(x.Rhs) == 1 {
+					if fv, _ := selField(ti.Info, x.Lhs[0]); fv != nil && typeIs(fv.Type(), "", "_Stack") {
+						switch y := ast.Unparen(x.Rhs[0]).(type) {
+						case *ast.CallExpr:
+							if builtinName(ti.Info, y) == "append" && len(y.Args) >= 2 && sameExpr(y.Args[0], x.Lhs[0]) {
+								effs = append(effs, "push")
+							}
+						case *ast.SliceExpr:
+							if sameExpr(y.X, x.Lhs[0]) && y.Low == nil && y.High != nil {
+								effs = append(effs, "pop")
+							}
+						}
+					}
+				}
 			case *ast.ReturnStmt:
 				if len(x.Results) == 1 {
 					if k, ok := usesObj(ti.Info, x.Results[0]).(*types.Const); ok {
@@ -944,9 +1162,9 @@ func ruleFMT4(c *Ctx) {
 	info := w.pk.TypesInfo
 	ti := ta.Variants[0]
 	// the flags word is the first header word; find the variable and its conditional assignment
-	flagsObj := usesObj(info, stripConv(info, w.header[0].Args[1]))
+	flagsObj := usesObj(info, stripConv(info, w.header[0]))
 	if flagsObj == nil {
-		c.bad(rule, "codegen.EmitLexer/flags-word", p.Pos(w.header[0].Pos()), "the first header word is not a flags variable")
+		c.bad(rule, "codegen.EmitLexer/flags-word", p.Pos(w.headerPos), "the first header word is not a flags variable")
 		return
 	}
 	var setVal *types.Const
@@ -974,7 +1192,7 @@ func ruleFMT4(c *Ctx) {
 		b := isField(info, be.Y, "lexergen/dfa", "State", "Accept") && isField(info, be.X, "lexergen/dfa", "State", "NonGreedy")
 		condOK = a || b
 	}
-	c.check(nAssign == 1 && setVal != nil && condOK, rule, "codegen.EmitLexer/flags-word", p.Pos(w.header[0].Pos()),
+	c.check(nAssign == 1 && setVal != nil && condOK, rule, "codegen.EmitLexer/flags-word", p.Pos(w.headerPos),
 		"the flags word is set to the non-greedy flag under exactly `state.Accept && state.NonGreedy`",
 		fmt.Sprintf("the flags word is not set exactly under `state.Accept && state.NonGreedy` (condition: %s, %d assignments)", exprStringOrNil(cond), nAssign))
 	// reader's tested constant
@@ -1407,12 +1625,22 @@ func ruleFMT6(c *Ctx) {
 		ok := false
 		ast.Inspect(fl, func(n ast.Node) bool {
 			rs, isR := n.(*ast.RangeStmt)
-			if !isR || !isField(info, rs.X, "parsergen/lr1", "Grammar", "Prods") || rs.Key == nil {
+			if !isR || !isField(info, rs.X, "parsergen/lr1", "Grammar", "Prods") {
 				return true
 			}
 			for _, s := range rs.Body.List {
-				if as, isA := s.(*ast.AssignStmt); isA && len(as.Lhs) == 1 {
-					if ix, isI := as.Lhs[0].(*ast.IndexExpr); isI && sameExpr(ix.Index, rs.Key) && valOK(stripConv(info, as.Rhs[0])) {
+				as, isA := s.(*ast.AssignStmt)
+				if !isA || len(as.Lhs) != 1 || len(as.Rhs) != 1 {
+					continue
+				}
+				// tbl[i] = v with i the range key
+				if ix, isI := as.Lhs[0].(*ast.IndexExpr); isI && rs.Key != nil && sameExpr(ix.Index, rs.Key) && valOK(stripConv(info, as.Rhs[0])) {
+					ok = true
+				}
+				// tbl = append(tbl, v) as an unconditional statement of the loop over all
+				// productions, tbl starting empty: position = production index as well
+				if call, isC := as.Rhs[0].(*ast.CallExpr); isC && builtinName(info, call) == "append" && len(call.Args) == 2 && sameExpr(call.Args[0], as.Lhs[0]) && valOK(stripConv(info, call.Args[1])) {
+					if startsEmpty(info, fl, usesObj(info, as.Lhs[0])) && !hasBranchOut(rs.Body) {
 						ok = true
 					}
 				}
@@ -1634,4 +1862,73 @@ func checkIndexIsPosition(c *Ctx, rule, fn, pkg, typ, field, owner, list string)
 	})
 	c.check(okLit && others == 0, rule, construct, p.Pos(fd.Pos()), fmt.Sprintf("%s.%s is len(%s.%s) at creation and is written nowhere else: index = position in the list the tables are emitted from", typ, field, owner, list),
 		fmt.Sprintf("%s.%s is not (only) the position in %s.%s (%d other writers)", typ, field, owner, list, others))
+}
+
+// startsEmpty: the slice variable o is declared in fn without elements (var, nil, make(T, 0, ...),
+// empty literal) and is only ever extended by append.
+func startsEmpty(info *types.Info, fn ast.Node, o types.Object) bool {
+	if o == nil {
+		return false
+	}
+	okDecl, bad := false, false
+	ast.Inspect(fn, func(n ast.Node) bool {
+		switch x := n.(type) {
+		case *ast.ValueSpec:
+			for i, nm := range x.Names {
+				if info.Defs[nm] == o {
+					okDecl = i >= len(x.Values) || emptySliceExpr(info, x.Values[i])
+				}
+			}
+		case *ast.AssignStmt:
+			for i, l := range x.Lhs {
+				if usesObj(info, l) != o {
+					continue
+				}
+				if _, isId := ast.Unparen(l).(*ast.Ident); !isId {
+					continue
+				}
+				if x.Tok == token.DEFINE && len(x.Lhs) == len(x.Rhs) {
+					okDecl = emptySliceExpr(info, x.Rhs[i])
+					continue
+				}
+				// later assignments must be self-appends
+				if len(x.Lhs) == len(x.Rhs) {
+					if call, ok := ast.Unparen(x.Rhs[i]).(*ast.CallExpr); ok && builtinName(info, call) == "append" && sameExpr(call.Args[0], l) {
+						continue
+					}
+				}
+				bad = true
+			}
+		}
+		return true
+	})
+	return okDecl && !bad
+}
+
+func emptySliceExpr(info *types.Info, e ast.Expr) bool {
+	e = ast.Unparen(e)
+	if exprString(e) == "nil" {
+		return true
+	}
+	if cl, ok := e.(*ast.CompositeLit); ok {
+		return len(cl.Elts) == 0
+	}
+	if call, ok := e.(*ast.CallExpr); ok && builtinName(info, call) == "make" && len(call.Args) >= 2 {
+		v, isC := constInt(info, call.Args[1])
+		return isC && v == 0
+	}
+	return false
+}
+
+// hasBranchOut: the loop body contains continue/break/goto/return (an iteration could be skipped).
+func hasBranchOut(body *ast.BlockStmt) bool {
+	found := false
+	inspectNoLit(body, func(n ast.Node) bool {
+		switch n.(type) {
+		case *ast.BranchStmt, *ast.ReturnStmt:
+			found = true
+		}
+		return true
+	})
+	return found
 }
